@@ -87,6 +87,12 @@ def _rules(ctx, facts, an, cfg):
             continue
         reach = an.reachable([root])
         opens = [o for o in u.open.values() if o.kind in an.kinds]
+        # closures handed to std combinators are called by std with arguments of their parameter types: entry points of their own
+        for fid in reach:
+            if facts.fns[fid].kind == "Closure" and fid not in an.spliced:
+                cu = an.analyse(fid)
+                if cu is not None:
+                    opens += [o for o in cu.open.values() if o.kind in an.kinds]
         for o in opens:
             k = key_of(o)
             if o.kind == "model":
